@@ -280,6 +280,8 @@ RunCall(sh, c, fuel) == RunFrom(sh, Begin(IdleLocal, c), fuel)
 (*  lastRm[t]     id of t's latest successful map.remove                   *)
 (*  pushing[t]    id t has inserted into the map, ticket push pending      *)
 (*  popped[t]     id whose ticket t has taken, map.remove pending          *)
+(*  cur[t]        id of the ticket t took last (the maker a matcher is     *)
+(*                working on)                                              *)
 (*  supplied/executed/back/disc[id]   cumulative quantity accounting       *)
 (*  everSup       upper bound for every aggregate: total ever supplied     *)
 (*  everCnt       number of orders ever added                              *)
@@ -304,7 +306,7 @@ CallTarget(c) == IF Class(c) \in {"remove", "amend"} THEN c.id ELSE 0
 GhostInit(Threads, qm) ==
   [cop |-> [t \in Threads |-> "idle"], cid |-> [t \in Threads |-> 0],
    held |-> [t \in Threads |-> <<>>], lastRm |-> [t \in Threads |-> 0],
-   pushing |-> [t \in Threads |-> 0], popped |-> [t \in Threads |-> 0],
+   pushing |-> [t \in Threads |-> 0], popped |-> [t \in Threads |-> 0], cur |-> [t \in Threads |-> 0],
    supplied |-> [i \in Ids |-> IF IsOrder(qm[i]) THEN Total(qm[i]) ELSE 0],
    executed |-> ZeroIds, back |-> ZeroIds, disc |-> ZeroIds,
    everSup |-> SumVis(qm) + SumHid(qm), everCnt |-> Cardinality(Live(qm)),
@@ -343,7 +345,8 @@ GhostOp(gh, t, e) ==
   CASE e.o = "map" /\ e.op = "remove" /\ IsOrder(e.r) ->
          LET g1 == Touch(gh, e.v)
              g2 == [g1 EXCEPT !.lastRm[t] = e.v, !.popped[t] = 0,
-                              !.bad = IF cls = "match" /\ gh.gone[e.v] THEN @ \cup {"traded-after-cancel"} ELSE @]
+                              !.gone[e.v] = IF cls = "remove" THEN TRUE ELSE @,     \* the canceller owns it from here on
+                              !.bad = IF gh.gone[e.v] THEN @ \cup {IF cls = "match" THEN "traded-after-cancel" ELSE "handed-out-twice"} ELSE @]
          IN IF cls \in {"match", "amend"}
             THEN [g2 EXCEPT !.held[t] = Append(@, [o |-> e.r, c |-> 0])]
             ELSE g2
@@ -353,8 +356,11 @@ GhostOp(gh, t, e) ==
          THEN (* decisive miss of a cancel / amend: remember who has the order out right now *)
               [g1 EXCEPT !.pmiss = @ \cup {<<e.v, h>> : h \in HeldBy(gh, e.v)}]
          ELSE g1
-    [] e.o = "tickets" /\ e.op = "pop" -> [gh EXCEPT !.popped[t] = e.r]
+    [] e.o = "tickets" /\ e.op = "pop" -> [gh EXCEPT !.popped[t] = e.r, !.cur[t] = e.r]
     [] e.o = "tickets" /\ e.op = "push" -> [gh EXCEPT !.pushing[t] = 0]
+    [] e.o \in {"vis", "gen"} /\ cls = "match" /\ gh.cur[t] \in Ids /\ gh.gone[gh.cur[t]] /\ gh.cur[t] \notin HeldIds(gh, t) ->
+         (* the matcher executes against a maker that a successful cancel has taken *)
+         [gh EXCEPT !.bad = @ \cup {"traded-after-cancel"}]
     [] e.o = "vis" /\ e.op = "fetch_sub" /\ cls = "match" /\ gh.lastRm[t] \in HeldIds(gh, t) ->
          LET i == gh.lastRm[t] IN
          [gh EXCEPT !.held[t] = [k \in DOMAIN @ |-> IF @[k].o.id = i THEN [@[k] EXCEPT !.c = e.v] ELSE @[k]]]
@@ -395,8 +401,7 @@ GhostRet(gh, t, r) ==
                        !.bad = IF gh.held[t] # <<>> THEN @ \cup {"order-lost-by-match"} ELSE @]
     [] r.t = "some" /\ cls = "remove" ->
          (* a removal handed the order to its caller *)
-         [g0 EXCEPT !.back[r.o.id] = @ + Total(r.o), !.nRem = @ + 1, !.gone[r.o.id] = TRUE,
-                    !.bad = IF gh.gone[r.o.id] THEN @ \cup {"handed-out-twice"} ELSE @]
+         [g0 EXCEPT !.back[r.o.id] = @ + Total(r.o), !.nRem = @ + 1, !.gone[r.o.id] = TRUE]
     [] r.t = "some" /\ cls = "amend" ->
          [g0 EXCEPT !.bad = IF gh.held[t] # <<>> THEN @ \cup {"order-lost-by-amend"} ELSE @]
     [] r.t = "none" /\ cls \in {"remove", "amend"} ->
